@@ -148,6 +148,14 @@ type limbTr struct {
 	traces    map[string][]int  // raw SSA ids
 	snapAfter string            // record the receiver's fields after the (top-level) call of this method
 	cutAfter  string            // phase cut: after the (top-level) call of this method the receiver's fields become fresh inputs
+	cutSet    map[string]bool
+	snapAt    string
+	snapVars  []string
+	snapDone  bool
+	snapEach  string
+	snapCount int
+	firstDef  map[string]int    // raw SSA id of the first definition of a traced output variable
+	outVarSet map[string]bool
 }
 
 type scope struct {
@@ -625,6 +633,33 @@ func (t *limbTr) assign(sc *scope, lhs ast.Expr, val *sv, define bool) {
 		if l.Name == "_" {
 			return
 		}
+		if sc.top && t.snapEach != "" && l.Name == t.snapEach {
+			name := fmt.Sprintf("snape%d", t.snapCount)
+			t.snapCount++
+			for _, n := range t.snapVars {
+				if v, ok := sc.vars[n]; ok {
+					t.traces[name] = append(t.traces[name], t.toVar(v, lhs.Pos()))
+				}
+			}
+		}
+		if sc.top && t.snapAt != "" && l.Name == t.snapAt && !t.snapDone {
+			t.snapDone = true
+			for _, n := range t.snapVars {
+				v, ok := sc.vars[n]
+				if !ok {
+					t.fail(lhs.Pos(), "snapshot variable %s is not defined", n)
+				}
+				t.traces["snapv"] = append(t.traces["snapv"], t.toVar(v, lhs.Pos()))
+			}
+		}
+		if sc.top && define && t.cutSet[l.Name] && (val.isVar || val.cst != nil) {
+			val = t.input("cut." + l.Name)
+		}
+		if sc.top && t.outVarSet[l.Name] && (val.isVar || val.cst != nil) {
+			if _, seen := t.firstDef[l.Name]; !seen {
+				t.firstDef[l.Name] = t.toVar(val, lhs.Pos())
+			}
+		}
 		if sc.top && t.traceSet[l.Name] && (val.isVar || val.cst != nil) {
 			t.traces[l.Name] = append(t.traces[l.Name], t.toVar(val, lhs.Pos()))
 		}
@@ -845,6 +880,12 @@ type limbSpec struct {
 	trace     []string // local variables whose successive definitions are recorded
 	snapAfter string   // method name: record the receiver fields right after this call
 	cutAfter  string   // method name: phase cut after this call (receiver fields become fresh inputs)
+	cutVars   []string // local variables that become fresh inputs `cut.<name>` at their := definition (phase cut)
+	outVars   []string // outputs = the FIRST definitions of these local variables (instead of parameters)
+	snapAt    string   // local variable: just before its first definition, record the current values of snapVars (trace "snapv")
+	snapVars  []string
+	snapEach  string   // local variable: before EVERY assignment of it, record snapVars (traces "snape0", "snape1", …)
+	snapEnd   bool     // record snapVars at the end of the function (trace "snapend")
 	fn        string   // "Element.Add" or "scMulAdd"
 	lean    string // lean definition name
 	signed  bool
@@ -897,6 +938,14 @@ func translateLimb(pkg *limbPkg, spec limbSpec) (res *limbResult, err error) {
 	for _, n := range spec.trace {
 		t.traceSet[n] = true
 	}
+	t.cutSet, t.outVarSet, t.firstDef = map[string]bool{}, map[string]bool{}, map[string]int{}
+	t.snapAt, t.snapVars, t.snapEach = spec.snapAt, spec.snapVars, spec.snapEach
+	for _, n := range spec.cutVars {
+		t.cutSet[n] = true
+	}
+	for _, n := range spec.outVars {
+		t.outVarSet[n] = true
+	}
 	sc := &scope{vars: map[string]*sv{}, top: true}
 	type pinfo struct {
 		name string
@@ -942,6 +991,13 @@ func translateLimb(pkg *limbPkg, spec limbSpec) (res *limbResult, err error) {
 		}
 	}
 	t.block(sc, fd.Body.List)
+	if spec.snapEnd {
+		for _, n := range spec.snapVars {
+			if v, ok := sc.vars[n]; ok {
+				t.traces["snapend"] = append(t.traces["snapend"], t.toVar(v, fd.Pos()))
+			}
+		}
+	}
 	if sc.rets == nil && len(named) > 0 {
 		for _, n := range named {
 			sc.rets = append(sc.rets, sc.vars[n])
@@ -986,6 +1042,14 @@ func translateLimb(pkg *limbPkg, spec limbSpec) (res *limbResult, err error) {
 		if !found {
 			return nil, fmt.Errorf("%s: no parameter %s", spec.fn, o)
 		}
+	}
+	for _, n := range spec.outVars {
+		id, ok := t.firstDef[n]
+		if !ok {
+			return nil, fmt.Errorf("%s: local variable %s is never defined", spec.fn, n)
+		}
+		outNames = append(outNames, n)
+		outVals = append(outVals, varSV(id))
 	}
 	outs := make([]int, len(outVals))
 	for i, v := range outVals {
